@@ -15,6 +15,7 @@ TEXT = ("Q1 (effect analysis): the transitive write-effect summary of meld conta
         "visible value, applied to the same tree and the revision being re-asserted. Q3: commit's automatic resolution "
         "passes the tree's current winner as the chosen revision and only for trees with more than one leaf. Does not "
         "decide 'read before = read after' as a value equality for commit, snapshots, or no-op refresh / reload.")
+TECHNIQUE = 'static analysis over rustc MIR: write-effect summaries of maintenance operations, value provenance of snapshots and resolutions (view at the winner), idempotence guards in refresh'
 TRUSTED = ["rustc nightly MIR", "effect summaries over the resolved call graph (closures, dyn Adapter fan-out)", "C07/V2"]
 
 def _own_data_guard(r, b, m):
